@@ -528,7 +528,9 @@ impl<T> DataReaderEntity<T> {
                 if instance_handle_list.contains(&sample.instance_handle) {
                     false
                 } else {
-                    instance_handle_list.len() == self.qos.resource_limits.max_instances
+                    // Dispose/unregister notifications are stored regardless of the limits, so the number of
+                    // instances held can already be above max_instances
+                    instance_handle_list.len() >= self.qos.resource_limits.max_instances
                 }
             };
             let is_max_samples_per_instance_limit_reached = {
